@@ -38,9 +38,10 @@ const (
 	actReadDL     action = "readdeadline"
 	actHoldClose  action = "holdclose"  // Close (x2) while the endpoint is inside an emission (holds the write lock)
 	actHoldPeerCN action = "holdreply"  // user Close while the reply to the peer's close_notify is being emitted
+	actStallClose action = "stallclose" // Close (x2) while an emission is stalled in a back-pressured transport (honours deadlines, never completes by itself)
 )
 
-var allActions = []action{actClose1, actClose2, actClose3, actPeerClose, actBothClose, actAlert0, actCtx, actReadDL, actHoldClose, actHoldPeerCN}
+var allActions = []action{actClose1, actClose2, actClose3, actPeerClose, actBothClose, actAlert0, actCtx, actReadDL, actHoldClose, actHoldPeerCN, actStallClose}
 
 func closedClass(err error) bool {
 	if err == nil {
@@ -234,6 +235,69 @@ func c16Run(t *testing.T, p *world.PKI, v checks.Variant, clientSide bool, pos i
 			finish(w, pr, n, x, y, bad)
 			o.NonTrivial = true
 			o.Class = fmt.Sprintf("holdclose/%s/est=%v", stage, est)
+			return
+		}
+
+		if act == actStallClose {
+			// The pos-th emission of X (counted from here) stalls inside the transport the way a back-pressured
+			// socket does: it holds the library's write lock and ends only by deadline or close. Close must still
+			// return, release the pending Write and leave nothing behind — without the stall ever being released.
+			st := x.PC.StallWrite(pos)
+			var wr *world.Op
+			_ = n.Pump(20*time.Second, func() bool { return st.IsHit() || pr.BothDone() })
+			if !st.IsHit() && pr.BothOK() {
+				stage = "data"
+				wr = startWrite(w, x, "stalled-payload")
+				_ = n.Pump(2*time.Second, func() bool { return st.IsHit() || wr.Done() })
+			}
+			if !st.IsHit() {
+				x.PC.Unstall()
+				o.Skip = true
+				pr.CloseAll()
+				return
+			}
+			est := x.Snapshot().Established
+			from := w.EmittedCount()
+			c1 := startCloseNoSkew(w, x, 1)
+			c2 := startCloseNoSkew(w, x, 2)
+			w.SettleLoose()
+			stuck := false
+			for _, c := range []*world.Op{c1, c2} {
+				if !c.Done() {
+					stuck = true
+					bad("Close did not return while an emission of this endpoint is stalled in the transport (%s)", c)
+				} else if _, e := c.Result(); e != nil {
+					bad("Close returned an error: %v", e)
+				}
+			}
+			if wr != nil {
+				if !wr.Done() {
+					stuck = true
+					bad("the Write stalled in the transport was not released by Close")
+				} else if _, e := wr.Result(); e == nil || !(closedClass(e) || deadlineClass(e)) {
+					bad("the Write stalled in the transport returned %v after Close (closed error expected)", e)
+				}
+			}
+			if how := st.How(); how == "" {
+				stuck = true
+				bad("the stalled transport write is still parked after Close returned")
+			}
+			if stuck {
+				close(st.Release) // unwind so that the execution can end
+				w.SettleLoose()
+			}
+			x.PC.Unstall()
+			if !world.MutexBlocked() {
+				w.Settle()
+			}
+			if al, _ := countAlertRecords(w, x.Addr, from); al > 1 {
+				bad("%d alert records emitted by one endpoint around Close (close_notify at most once)", al)
+			} else if est && stage == "data" && al != 1 && !stuck {
+				bad("application closed an established open session but %d close_notify records were emitted", al)
+			}
+			finish(w, pr, n, x, y, bad)
+			o.NonTrivial = true
+			o.Class = fmt.Sprintf("stallclose/%s/est=%v/%s", stage, est, st.How())
 			return
 		}
 
